@@ -64,6 +64,10 @@ def case_strategy(draw):
     if draw(st.booleans()) and "md" in order:
         # usual shape: metadata first (possibly lost), data reordered
         order = ["md"] + [x for x in order if x != "md"]
+    if draw(st.integers(0, 5)) == 0:
+        # an empty File Data PDU somewhere in the initial stream (also before the Metadata PDU)
+        pos = draw(st.integers(0, len(order)))
+        order = list(order[:pos]) + [["eseg", draw(st.integers(0, n))]] + list(order[pos:])
     script = []
     for it in order:
         act = draw(st.sampled_from(["keep", "keep", "keep", "drop", "dup"]))
@@ -78,6 +82,7 @@ def case_strategy(draw):
         st.tuples(st.just("rtx"), st.integers(0, 5), st.just(255)).map(list),
         st.tuples(st.just("seg"), st.integers(0, n - 1)).map(list),
         st.just("md"), st.just("eof"),
+        st.tuples(st.just("eseg"), st.integers(0, n)).map(list),
     )
     script += draw(st.lists(tail_op, max_size=24))
     return {"cfg": cfg, "size": size, "seg": seg, "script": script, "pat": draw(st.binary(min_size=1, max_size=8))}
@@ -122,6 +127,9 @@ def evaluate(case):
             o = op[1] * seg
             data = content[o : o + seg]
             pdus = [FileDataPdu(conf(), FileDataParams(data, o))]
+        elif kind == "eseg":
+            # a File Data PDU with an empty payload (legal, never stores anything)
+            pdus = [FileDataPdu(conf(), FileDataParams(b"", min(op[1] * seg, size)))]
         elif kind == "eof":
             pdus = [EofPdu(conf(), csum, size)]
         elif kind == "tick":
